@@ -1243,7 +1243,7 @@ def gen_one_bad(rng, h, maxlen=6, env=None):
     """For a hint whose *top level* is a randomly sampled sequence (list/Sequence/MutableSequence/variadic tuple):
     (object DSL, index) where exactly the item at ``index`` must be rejected and all others conform."""
     k = h['k']
-    if k not in ('seq', 'vtuple'):
+    if k not in ('seq', 'vtuple', 'iter'):
         raise CannotGenerate(h)
     child = h['a'][0]
     n = rng.randint(2, maxlen)
@@ -1258,6 +1258,9 @@ def gen_one_bad(rng, h, maxlen=6, env=None):
             raise CannotGenerate(h)
     if k == 'vtuple':
         return {'o': 'tuple', 'i': items}, i
+    if k == 'iter':
+        # quasi-iterables sample a random item when the object is a sequence
+        return {'o': rng.choice(['list', 'tuple']), 'i': items}, i
     oc = SEQ_ORIGINS[h['o']][1]
     kind = 'list' if oc in (list, cabc.MutableSequence) else rng.choice(['list', 'tuple'])
     return {'o': kind, 'i': items}, i
